@@ -6,6 +6,7 @@ package main
 
 import (
 	"fmt"
+	"math"
 	"os"
 	"path/filepath"
 	"reflect"
@@ -233,11 +234,11 @@ func specs(c *runner.Ctx) []spec {
 	}
 	out = append(out,
 		spec{space: "int/strings", rule: "int", rec: signedUnspec(lang.Int), gen: genStrings(numAlpha, n(4, 5))},
-		spec{space: "int/edits", rule: "int", rec: signedUnspec(lang.Int), gen: genEdits("7", "007", "15", "1234567890")},
+		spec{space: "int/edits", rule: "int", rec: signedUnspec(lang.Int), gen: genEdits("7", "007", "15", "1234567890", "18446744073709551615", "18446744073709551616", "99999999999999999999999999999999")},
 		spec{space: "int/kinds", rule: "int", rec: func(v reflect.Value) (bool, bool) { return true, true },
 			gen: genList(int(5), int8(-3), int64(1<<40), uint16(7), uint64(1<<63))},
 		spec{space: "float/strings", rule: "float", rec: signedUnspec(lang.Float), gen: genStrings(numAlpha, n(4, 5))},
-		spec{space: "float/edits", rule: "float", rec: signedUnspec(lang.Float), gen: genEdits("1.5", "10.25", "0.5", "3.14159")},
+		spec{space: "float/edits", rule: "float", rec: signedUnspec(lang.Float), gen: genEdits("1.5", "10.25", "0.5", "3.14159", "123456789012345678901234567890.5", "0.000000000000000000000000000001")},
 		spec{space: "float/kinds", rule: "float", rec: func(v reflect.Value) (bool, bool) { return true, true }, gen: genList(float32(1.5), float64(2.25), float64(1e20), float32(0.1))},
 	)
 	// ints
@@ -411,6 +412,19 @@ func specs(c *runner.Ctx) []spec {
 			emit(rv([2]int{1, 2}))
 			emit(rv([]string{"1", "1.0"}))
 			emit(rv([]float64{1, 1.0}))
+			// values whose IEEE equality differs from the equality of their renderings
+			negZero := math.Copysign(0, -1)
+			nan := math.NaN()
+			emit(rv([]float64{0, negZero}))
+			emit(rv([]float64{negZero, 0, 1}))
+			emit(rv([]float64{nan, nan}))
+			emit(rv([]float64{nan, 1, nan}))
+			emit(rv([]float64{nan, 1}))
+			emit(rv([]float32{0, float32(negZero)}))
+			emit(rv([]float32{float32(nan), float32(nan)}))
+			emit(rv([2]float64{nan, nan}))
+			emit(rv([]float64{math.Inf(1), math.Inf(1)}))
+			emit(rv([]float64{math.Inf(1), math.Inf(-1)}))
 		}})
 	// json
 	out = append(out,
